@@ -138,6 +138,11 @@ def _fill(prog, rep):
             a, pol = f
             if a[0] == "b" and a[1][0] == "call" and a[1][1] == "str::contains" and a[1][2] == (TEXT, ("char", 10)):
                 nl = pol
+            fnd = ("call", "str::find", (TEXT, ("char", 10)))
+            if a[0] == "b" and a[1] in (("call", "Option::is_none", (fnd,)), ("call", "Option::is_some", (fnd,))):
+                nl = pol if a[1][1] == "Option::is_some" else not pol      # find(c).is_some() is contains(c)
+            if a[0] == "variant" and a[1] == fnd and a[2] in ("Some", "None"):
+                nl = pol if a[2] == "Some" else not pol
         r1.check(e is True, "indent-empty", "fill's shortcut requires an empty initial indent", "EMPTY(initial_indent)",
                  "fill's shortcut is taken although the initial indent is not known to be empty: the indent would be dropped")
         r1.check(nl is False, "single-paragraph", "fill's shortcut requires !text.contains('\\n')", "no newline",
